@@ -137,6 +137,8 @@ class RayFan:
 
         # remove distortion
         wave_ref = self.optic.primary_wavelength
+        if wave_ref not in list(self.wavelengths):
+            wave_ref = self.wavelengths[0]
         for field in self.fields:
             x_offset = data[f'{field}'][f'{wave_ref}']['x'][self.num_points//2]
             y_offset = data[f'{field}'][f'{wave_ref}']['y'][self.num_points//2]
